@@ -891,6 +891,8 @@ class PlainQuantity(Generic[MagnitudeT], PrettyIPython, SharedRegistryObject):
         -------
 
         """
+        from .unit import PlainUnit
+
         if units_op is None:
             units_op = magnitude_op
 
@@ -920,7 +922,9 @@ class PlainQuantity(Generic[MagnitudeT], PrettyIPython, SharedRegistryObject):
             self._units = units_op(self._units, self.UnitsContainer())
             return self
 
-        if isinstance(other, self._REGISTRY.Unit):
+        # Not self._REGISTRY.Unit: module-level pint.Unit objects belong to the
+        # application registry without being instances of its bound class.
+        if isinstance(other, PlainUnit):
             other = 1 * other
 
         if not self._ok_for_muldiv(no_offset_units_self):
@@ -960,6 +964,8 @@ class PlainQuantity(Generic[MagnitudeT], PrettyIPython, SharedRegistryObject):
         -------
 
         """
+        from .unit import PlainUnit
+
         if units_op is None:
             units_op = magnitude_op
 
@@ -991,7 +997,9 @@ class PlainQuantity(Generic[MagnitudeT], PrettyIPython, SharedRegistryObject):
 
             return self.__class__(magnitude, units)
 
-        if isinstance(other, self._REGISTRY.Unit):
+        # Not self._REGISTRY.Unit: module-level pint.Unit objects belong to the
+        # application registry without being instances of its bound class.
+        if isinstance(other, PlainUnit):
             other = 1 * other
 
         new_self = self
